@@ -137,19 +137,27 @@ Section Spec.
   Definition sym_type (sch : schema) (S : nat) (n : str) : ntype :=
     match resolve sch S n with Some r => rsym_type r | None => TOther end.
 
-  (* the value of a single-valued symbol *)
+  (* the value of a single-valued symbol: a field of the entity, or of the entity a chain of references leads to *)
   Definition value_of (sch : schema) (d : db) (S : nat) (id : str) (n : str) : sval :=
     match resolve sch S n with
-    | Some (RSimple LkId) => VStr id
-    | Some (RSimple (LkField st _ path _)) => field_get d st id path
+    | Some (RSimple l) => link_value d l id
+    | Some (RChainVal ty chain) => link_value d (LkComp ty chain) id
     | _ => VNil
     end.
 
-  (* the elements of a set symbol, in stored order *)
-  Definition elements_of (sch : schema) (d : db) (S : nat) (id : str) (n : str) : list sval :=
+  (* the keys of a set symbol in stored order: the elements of the set bucket; for a dotted set symbol every
+     key reached through the chain (a reference that is null or dangling contributes a null) *)
+  Definition keys_of (sch : schema) (d : db) (S : nat) (id : str) (n : str) : list sval :=
     match resolve sch S n with
     | Some (RSimple (LkSet st _ key _)) => set_get d st id key
+    | Some (RChainSet _ (l0 :: up) _) => flat_map (chain_enum d up) (link_step d l0 id)
     | _ => []
+    end.
+  (* the elements a set function ranges over *)
+  Definition elements_of (sch : schema) (d : db) (S : nat) (id : str) (n : str) : list sval :=
+    match resolve sch S n with
+    | Some (RChainSet _ _ last) => map (last_value d last) (keys_of sch d S id n)
+    | _ => keys_of sch d S id n
     end.
 
   Definition page {A : Type} (skip limit : option Z) (l : list A) : list A :=
@@ -171,7 +179,7 @@ Section Spec.
     let sub := fun (n : str) (q : untyped) =>
       match (match resolve sch S n with Some r => rsym_linked r | None => None end), q with
       | Some S', UQuery p skip limit =>
-          page skip limit (filter (fun x => spec sch d S' x p) (ids_of (elements_of sch d S id n)))
+          page skip limit (filter (fun x => spec sch d S' x p) (ids_of (keys_of sch d S id n)))
       | _, _ => []
       end in
     let count := fun (se : setexpr untyped) =>
